@@ -423,6 +423,7 @@ type Contract struct {
 	CallAsserts []CallAssert
 	Frame     []string // nil = unspecified (everything for unknown); ["nothing"]; heap names
 	HasFrame  bool
+	FrameTrusted bool
 	Opts      map[string]string
 	Props     []string
 	File      string
